@@ -372,6 +372,10 @@ func HandleSetFileInfo(cc *hotline.ClientConn, t *hotline.Transaction) (res []ho
 				return cc.NewErrReply(t, "Cannot rename folder "+string(fileName)+" because it does not exist or cannot be found.")
 
 			}
+			// Any other failure (a name the file system does not take, say) is not a success either.
+			if err != nil {
+				return cc.NewErrReply(t, "Cannot rename folder "+string(fileName)+".")
+			}
 		case mode.IsRegular():
 			if !cc.Authorize(hotline.AccessRenameFile) {
 				return cc.NewErrReply(t, "You are not allowed to rename files.")
@@ -395,7 +399,7 @@ func HandleSetFileInfo(cc *hotline.ClientConn, t *hotline.Transaction) (res []ho
 				return cc.NewErrReply(t, "Cannot rename file "+string(fileName)+" because it does not exist or cannot be found.")
 			}
 			if err != nil {
-				return res
+				return cc.NewErrReply(t, "Cannot rename file "+string(fileName)+".")
 			}
 		}
 	}
